@@ -373,10 +373,11 @@ def run(ctx):
     esc_cases = corr_escape(ctx, qf, drv) if drv else {}
     # ---------------------------------------------------------------- (c) pretty printer
     pretty_cases = corr_pretty(ctx, qf, drv) if drv else {}
+    frag_cases = corr_frag(ctx, qf, drv) if drv else {}
     timings["corr_escape_pretty_s"] = round(time.time() - t2, 1)
 
-    corr_total = sum(c.get("cases", 0) for c in (norm_cases, esc_cases, pretty_cases))
-    corr_bad = sum(c.get("disagreements", 0) for c in (norm_cases, esc_cases, pretty_cases))
+    corr_total = sum(c.get("cases", 0) for c in (norm_cases, esc_cases, pretty_cases, frag_cases))
+    corr_bad = sum(c.get("disagreements", 0) for c in (norm_cases, esc_cases, pretty_cases, frag_cases))
     samples = [s for s, o, _ in gen[:400] if len(s) < 200][:4]
     ctx.cov.update({
         "evaluations": parsed * 5 + corr_total,
@@ -397,7 +398,18 @@ def run(ctx):
         "syntactic_forms_histogram": dict(sorted(form_hist.items())),
         "e2e_failures_unexplained": len(failures), "e2e_failures_known": known_hits,
         "comment_scanner_vs_generator_mismatches": scanner_mismatch, "timings": timings,
-        "correspondence_normalize": norm_cases, "correspondence_escape": esc_cases, "correspondence_pretty": pretty_cases,
+        "correspondence_normalize": norm_cases, "correspondence_escape": esc_cases, "correspondence_pretty": pretty_cases, "correspondence_fragment": frag_cases,
+        "modelled_functions_compared_with_real_code": {
+            "Simplify.normalize_blocks compiler_options  ~ simplify::normalize_blocks(keep=false, lift, no group)": norm_cases.get("cases", 0),
+            "Simplify.normalize_blocks (formatter_options (keep_by_span ..)) ~ simplify::normalize_blocks(keep by span offset, no lift, group)": norm_cases.get("cases", 0),
+            "Escape.escape_single / render_multiline ~ format.rs escape_single_line_text / escape_multiline_text / protect_trailing_spaces / multiline_string_doc (through format_program)": esc_cases.get("format_roundtrip_cases", 0),
+            "Escape.unescape / scan_single / scan_multiline_raw / multiline_dedent / process_escapes / process_multiline(_term) ~ parser.rs string processing (through parse)": esc_cases.get("format_roundtrip_cases", 0) + esc_cases.get("raw_string_cases_compared", 0),
+            "Pretty.print (layout, fits, strip_trailing_whitespace), group, forces_break ~ pretty::print, group": pretty_cases.get("print_calls_compared", 0),
+            "FormatFrag.flatten ~ pretty::flatten": pretty_cases.get("flatten_calls_compared", 0),
+            "FormatFrag.flat_width ~ pretty::flat_width": pretty_cases.get("flat_width_calls_compared", 0),
+            "FormatFrag.format_frag (term_doc, chain_doc, bracketed, break_if_wider_than, program_doc) ~ format_program on fragment ASTs": frag_cases.get("format_cases", 0),
+            "FormatFrag.parse_frag ~ parser::parse on printed and perturbed fragment texts": frag_cases.get("format_cases", 0) + frag_cases.get("parse_cases_accepted_by_model", 0),
+        },
         "traces_validated_against_impl": corr_total - corr_bad,
         "disagreements_checked": corr_bad + len(failures),
     })
@@ -609,7 +621,7 @@ def corr_pretty(ctx, qf, drv):
         return {"cases": 0, "disagreements": 0, "note": "Pretty model not in the driver"}
     bad, differs_by_width = 0, 0
     for c, r, m in zip(cases, real, model):
-        if len(set(re.findall(r"\([0-9 ]*\)", r))) > 1:
+        if len(set(re.findall(r"\([0-9 ]*\)", r.split(" (flat ")[0]))) > 1:
             differs_by_width += 1
         if r != m:
             bad += 1
@@ -617,8 +629,112 @@ def corr_pretty(ctx, qf, drv):
                 kind = "impl-violation" if "(panic" in r else "correspondence-broken"
                 ctx.violation({"kind": kind, "correspondence": "Pretty.v print vs pretty.rs print", "case": c, "impl": r[:1500], "model": m[:1500]},
                               no_input=(kind != "impl-violation"))
-    return {"cases": len(cases), "disagreements": bad, "docs_whose_layout_depends_on_width": differs_by_width}
+    return {"cases": len(cases), "disagreements": bad, "docs_whose_layout_depends_on_width": differs_by_width,
+            "print_calls_compared": sum(len(c.split(")")[0].split()) - 2 for c in cases), "flatten_calls_compared": len(cases),
+            "flat_width_calls_compared": sum(len(c.split(")")[0].split()) - 2 for c in cases)}
 
+
+
+# ------------------------------------------------------------------------------------------ fragment (FormatFrag.v)
+def gen_fname(rng, upper=False):
+    n = rng.choice([1, 1, 2, 3, 5, 8, 13, 21])
+    first = rng.choice("ABCDEFGHKLMNPQRSTXYZ" if upper else "abcdefghijklmnopqrstuvwxyz")
+    body = "".join(rng.choice("abcdefghijklmnopqrstuvwxyz0123456789_ABZ") for _ in range(n - 1))
+    tail = "" if upper else rng.choice(["", "", "", "?", "!", "?!"])
+    name = first + body + tail
+    return name + "x" if name in ("int", "bin", "ref") else name
+
+
+def gen_fterm(rng, depth, budget):
+    budget[0] -= 1
+    k = rng.random()
+    if depth <= 0 or budget[0] <= 0 or k < 0.3:
+        j = rng.random()
+        if j < 0.3:
+            return "(i %d)" % rng.choice([0, 1, -1, 7, 42, -300, 10 ** 12, -(10 ** 30), rng.randint(-99999, 99999)])
+        if j < 0.65:
+            return "(id %s)" % cps(gen_fname(rng))
+        if j < 0.9:
+            return "(s %s)" % cps("".join(rng.choice(["a", "b", " ", "  ", "\"", "\\", "{", "}", "\n", "\t", "é", "中", "//", "~>", ",", "]"]) for _ in range(rng.choice([0, 1, 2, 5, 12, 30]))))
+        return "(t (n %s))" % cps(gen_fname(rng, True)) if rng.random() < 0.6 else "(t -)"
+    name = "(n %s)" % cps(gen_fname(rng, True)) if rng.random() < 0.4 else "-"
+    fields = []
+    for _ in range(rng.choice([1, 1, 2, 3, 4, 6])):
+        label = "(l %s)" % cps(gen_fname(rng)) if rng.random() < 0.35 else "-"
+        fields.append("(f %s %s)" % (label, gen_fchain_terms(rng, depth - 1, budget)))
+    return "(t %s %s)" % (name, " ".join(fields))
+
+
+def gen_fchain_terms(rng, depth, budget=None):
+    budget = budget if budget is not None else [rng.choice([3, 8, 20, 40, 80])]
+    n = rng.choice([1, 1, 1, 2, 2, 3, 4])
+    return " ".join(gen_fterm(rng, depth, budget) for _ in range(n))
+
+
+def perturb(rng, text):
+    """Whitespace-level variations of a printed fragment text that the grammar treats alike, and a few that it does not."""
+    out = []
+    for ch in text:
+        r = rng.random()
+        if ch == " " and r < 0.15:
+            out.append(rng.choice(["  ", "\t", " \t ", " ~> ", "\n  ~> ", " ~>\n"]))
+        elif ch == "\n" and r < 0.3:
+            out.append(rng.choice(["\n\n", "\r\n", "\n   ", " \n"]))
+        elif ch in "[]," and r < 0.15:
+            out.append(rng.choice([ch + " ", " " + ch, ch + "\n ", ch]))
+        elif r < 0.01:
+            out.append(rng.choice(["", ch + ch, ",", "]", "[", "x", " = ", ".", "(", '"']))
+        else:
+            out.append(ch)
+    return "".join(out)
+
+
+def corr_frag(ctx, qf, drv):
+    """Model printer (FormatFrag.format_frag) vs real format_program, and model parser (parse_frag) vs real parser, on the
+    data-literal fragment; the round trip parse(format(ast)) = ast on the real code; the model round trip at 8 widths."""
+    rng = ctx.rng
+    cases = ["(fragfmt (c %s))" % gen_fchain_terms(rng, rng.choice([0, 1, 2, 3, 4])) for _ in range(ctx.n(2500, 15000))]
+    rc, real = ctx.run_sharded(qf, cases, args=["frag"])
+    rc, model = ctx.run_sharded(drv, cases, args=["frag"])
+    if model and model[0].startswith("(unsupported-mode"):
+        return {"cases": 0, "disagreements": 0, "note": "fragment model not in the driver"}
+    bad, multi_line, texts = 0, 0, []
+    for c, r, m in zip(cases, real, model):
+        mo = re.match(r"\(frag \(out ([0-9 ]*)\) \(back (.*)\)\)$", r)
+        if mo:
+            text = uncps(mo.group(1))
+            texts.append(text)
+            multi_line += text.count("\n") > 1
+            if mo.group(2) != "(ok %s)" % c[len("(fragfmt "):-1]:
+                bad += 1
+                if bad <= 3:
+                    ctx.violation({"kind": "impl-violation", "oracle": "parse(format_program(fragment AST)) = the AST (real vs real)", "case": c[:1500], "impl": r[:1500]})
+                continue
+        if r != m:
+            bad += 1
+            if bad <= 3:
+                kind = "impl-violation" if "(panic" in r else "correspondence-broken"
+                ctx.violation({"kind": kind, "correspondence": "FormatFrag.v format_frag / parse_frag vs format_program / parse", "case": c[:1500],
+                               "impl": r[:1500], "model": m[:1500]}, no_input=(kind != "impl-violation"))
+    # the parsers on perturbed texts
+    pcases = []
+    for t in texts[:ctx.n(2500, 15000)]:
+        pcases.append("(fragparse %s)" % cps(perturb(rng, t)))
+    rc, preal = ctx.run_sharded(qf, pcases, args=["frag"])
+    rc, pmodel = ctx.run_sharded(drv, pcases, args=["frag"])
+    pbad, accepted, model_only_rejects = 0, 0, 0
+    for c, r, m in zip(pcases, preal, pmodel):
+        if "(back (ok" in m:
+            accepted += 1
+            if r != m:
+                pbad += 1
+                if pbad <= 3:
+                    ctx.violation({"kind": "correspondence-broken", "correspondence": "FormatFrag.v parse_frag vs parser.rs parse (perturbed fragment text)",
+                                   "case": c[:1500], "impl": r[:1500], "model": m[:1500]}, no_input=True)
+        elif "(back (ok" in r:
+            model_only_rejects += 1     # the model parser is allowed to be more conservative (it answers None outside the fragment)
+    return {"cases": len(cases) + len(pcases), "disagreements": bad + pbad, "format_cases": len(cases), "outputs_with_broken_layout": multi_line,
+            "parse_cases": len(pcases), "parse_cases_accepted_by_model": accepted, "parse_cases_only_real_accepts": model_only_rejects}
 
 # ------------------------------------------------------------------------------------------ replay
 def replay(ctx, e2e, drv, qf):
